@@ -73,6 +73,9 @@ inline std::string elemDesc(const XERCESC_NS::DOMElement* e) {
 	return DOMUtils::xPathForNode(e);
 }
 
+// set by the fault-injecting datamodel: told which element of executable content is running
+extern void (*g_trackContent)(bool enter, const std::string& elem);
+
 class RecQueue : public BasicEventQueue {
 public:
 	std::string qid, role;
@@ -263,10 +266,14 @@ public:
 		tr::Rec(sessTag(s), "axs").str(n).str(elemDesc(e));
 	}
 	virtual void beforeExecutingContent(const std::string& s, const XERCESC_NS::DOMElement* e) {
-		tr::Rec(sessTag(s), "bxc").str(elemDesc(e));
+		std::string d = elemDesc(e);
+		tr::Rec(sessTag(s), "bxc").str(d);
+		if (g_trackContent) g_trackContent(true, d);
 	}
 	virtual void afterExecutingContent(const std::string& s, const XERCESC_NS::DOMElement* e) {
-		tr::Rec(sessTag(s), "axc").str(elemDesc(e));
+		std::string d = elemDesc(e);
+		tr::Rec(sessTag(s), "axc").str(d);
+		if (g_trackContent) g_trackContent(false, d);
 	}
 	virtual void beforeUninvoking(const std::string& s, const XERCESC_NS::DOMElement* e, const std::string& id) {
 		tr::Rec(sessTag(s), "bun").str(elemDesc(e)).str(id);
